@@ -507,6 +507,8 @@ qb_vsnprintf_serialize(char *serialize, size_t max_len,
 	for (;;) {
 		type_long = QB_FALSE;
 		type_longlong = QB_FALSE;
+		sformat_length = 0;
+		sformat_precision = QB_FALSE;
 		p = strchrnul((const char *)format, '%');
 		if (*p == '\0') {
 			break;
@@ -704,8 +706,6 @@ reprocess:
 				return max_len;
 			}
 			serialize[location++] = '%';
-                        sformat_length = 0;
-                        sformat_precision = QB_FALSE;
 			break;
 
 		}
